@@ -22,13 +22,13 @@ def sel(module, quick_re, thorough_re=None):
 # --- planner step family -----------------------------------------------------------------------
 # quick: shapes 1x1x1 1x2x1 2x1x1 2x2x1, 1 read + 1 write per group and for the new system,
 #        every barrier position, 0/1 dependencies (+ 2 / 2-equal on 2x1x1 and 1x2x1)
-STEP_Q = r'^step_s(1g1l1|1g2l1|2g1l1|2g2l1)_r1w1_b\d_d[01]_n11$|^step_s(2g1l1|1g2l1)_r1w1_b\d_d2e?_n11$|^step_s1g1l[34]_r1w1_b0_d[01]_n11$'
+STEP_Q = (r'^step_s(1g1l1|1g2l1|2g1l1|2g2l1)_r1w1_b\d_d(0|1|2|2e)_n11$|^step_s(2g1l1|2g2l1)_r1w1_b[01]_d3aba_n11$|^step_s1g1l[34]_r1w1_b0_d[01]_n11$')
 STEP_T = r'^step_'
 STEP_FUNCS = ['StagesBuilder::insertion_target', 'StagesBuilder::find_conflict', 'StagesBuilder::remove_ids',
               'StagesBuilder::improves_balance', 'Conflict::add', 'dispatch::util::check_intersection',
               '<ResourceId as PartialEq>::eq']
 STEP_BOUNDS = {'shapes_quick': '1x1x1 1x2x1 2x1x1 2x2x1 (+1x1x3 1x1x4 for capacity)', 'shapes_thorough': 'adds 1x2x2 1x3x1 3x1x1 2x2x2 1x1x3 1x1x4 1x2x4 2x1x2 3x2x1 and 2 reads/2 writes on 1x2x1 2x1x1 2x2x1',
-               'resources': '2 static types x 3 dynamic ids', 'reads/writes per group': '1 (quick) / <=2', 'dependencies': '0,1,2 distinct,2 equal',
+               'resources': '2 static types x 3 dynamic ids', 'reads/writes per group': '1 (quick) / <=2', 'dependencies': '0, 1, 2 distinct, 2 equal, 3 as [a,b,a]',
                'barrier': 'every value in {0, S-1, S}', 'unwinding': 'per instance, unwinding assertions on'}
 STEP_ASSUME = ['pre-state: five tables of identical concrete shape, ids 0..n in slot order, accumulated time of a group of l systems in l..=5l (Inv I1,I2,I4,I5)',
                'dependencies name existing system ids (DispatcherBuilder::add resolves names or panics)',
@@ -54,7 +54,7 @@ def step_prop(funcs_extra=(), owner=None):
 EXEC_FUNCS = ['Dispatcher::{setup,dispose,dispatch,dispatch_par,dispatch_seq,dispatch_thread_local,try_into_sendable,max_threads}',
               'SendDispatcher::{setup,dispose,dispatch,dispatch_par,dispatch_seq,max_threads}', 'Stage::{setup,dispose,execute,execute_seq,max_threads}',
               'BatchControllerSystem::{run,setup,dispose,accessor}', '<T as RunNow>::{run_now,setup,dispose}', 'new_dispatcher']
-EXEC_BOUNDS = {'layouts': '[[1],[2]],[[1]] | [[5],[1]] | [[1],[1],[1]],[[1]],[[1],[1]] | batch next to one system, inner [[1],[1]],[[1]] | batch with an inner thread-local system',
+EXEC_BOUNDS = {'pool size reported by rayon': 'solver variable 1..16', 'layouts': '[[1],[2]],[[1]] | [[5],[1]] | [[1],[1],[1]],[[1]],[[1],[1]] | batch next to one system, inner [[1],[1]],[[1]] | batch with an inner thread-local system',
                'thread-local systems': '0..2', 'call sequences': 'two dispatch calls per instance out of dispatch/dispatch_par/dispatch_seq/dispatch_thread_local, then dispose or try_into_sendable',
                'inner dispatches per controller run': '0,1,2', 'job start order inside a parallel region': 'solver variable (forward / reverse)'}
 EXEC_ASSUME = ['rayon is replaced by a sequential contract model: every for_each / join opens a region whose jobs may overlap arbitrarily, each job runs exactly once, the call returns after all jobs, install runs the closure inside the pool',
@@ -98,17 +98,52 @@ def both(a, b):
     return {**a, **b}
 
 
+def commit_part(owner=None):
+    return {'engine': 'kani', 'family': 'commit', 'module': 'commit', 'select': sel('commit', r'^commit_'), 'unlabelled_owner': owner,
+            'jobs': 8, 'timeout_quick': 900, 'timeout_thorough': 2400, 'mem_gb': 20}
+
+
+def relabel_part():
+    return {'engine': 'kani', 'family': 'relabel', 'module': 'relabel',
+            'select': sel('relabel', r'^relabel_(s1g1l1_r1w1_b0_d0_n11|s1g2l1_r1w1_b0_d0_n11|s1g2l1_r2w1_b0_d0_n12|s2g1l1_r2w1_b0_d0_n12|s1g1l2_r2w2_b0_d0_n22)$', r'^relabel_'),
+            'unlabelled_owner': None, 'jobs': 8, 'timeout_quick': 900, 'timeout_thorough': 2400, 'mem_gb': 20}
+
+
+def unit_part(rx_quick, rx_thorough=None):
+    return {'engine': 'kani', 'family': 'unit', 'module': 'unit', 'select': sel('unit', rx_quick, rx_thorough), 'unlabelled_owner': None,
+            'jobs': 6, 'timeout_quick': 900, 'timeout_thorough': 2400, 'mem_gb': 20}
+
+
+COMMIT_FUNCS = ['StagesBuilder::insert (decision + add_stage/add_group + the five pushes)', 'smallvec/arrayvec push/extend (contract models)']
+COMMIT_BOUNDS = {'commit shapes': '0 stages | 1x1x1 | 1x2x1 | 2x1x1, barrier = number of stages (forces the NewStage target: a solver-chosen target makes the real insert index its tables symbolically - out of memory at 30 GB)',
+                 'new system': '<= 2 reads, <= 2 writes (duplicates and read/write overlap allowed), symbolic time, 0/1 dependency', 'join-a-group / open-a-group paths of the commit': 'decided by E2 on the MIR of insert, all (stage, group) values'}
+RELABEL_BOUNDS = {'relabel shapes': '1x1x1 1x2x1 2x1x1 1x1x2, <= 2 reads and <= 2 writes per group and for the new system', 'relabelling': 'any permutation of the 6 resource ids (2 static types x 3 dynamic ids), any order of the 2-element lists'}
+
+
 PROPS = {
-    'C01': prop('model_checking', [step_part(), exec_part()], STEP_FUNCS + EXEC_FUNCS, both(STEP_BOUNDS, EXEC_BOUNDS), STEP_ASSUME + EXEC_ASSUME, STEP_OUT + EXEC_OUT, RULE_STEP + ' | ' + RULE_EXEC),
+    'C01': prop('model_checking', [step_part(), commit_part(), exec_part(), mir_part(['spec_insert', 'spec_stage_exec'])], STEP_FUNCS + EXEC_FUNCS, both(STEP_BOUNDS, EXEC_BOUNDS), STEP_ASSUME + EXEC_ASSUME, STEP_OUT + EXEC_OUT, RULE_STEP + ' | ' + RULE_EXEC),
     'C02': prop('model_checking', [step_part(), exec_part(), mir_part(['spec_add'])], STEP_FUNCS + EXEC_FUNCS + ['DispatcherBuilder::add'], both(STEP_BOUNDS, EXEC_BOUNDS), STEP_ASSUME + EXEC_ASSUME + MIR_ASSUME, STEP_OUT + EXEC_OUT, RULE_STEP + ' | ' + RULE_EXEC + ' | ' + MIR_RULE),
-    'C03': prop('model_checking', [step_part(), exec_part(), mir_part(['spec_add_barrier'])], STEP_FUNCS + ['StagesBuilder::add_barrier', 'DispatcherBuilder::add_barrier'], both(STEP_BOUNDS, EXEC_BOUNDS), STEP_ASSUME + EXEC_ASSUME + MIR_ASSUME, STEP_OUT + EXEC_OUT, RULE_STEP + ' | ' + RULE_EXEC + ' | ' + MIR_RULE),
-    'C04': prop('model_checking', [exec_part('C04'), mir_part()], EXEC_FUNCS + ['MultiDispatcher::run', 'DispatcherBuilder::add_batch'], EXEC_BOUNDS, EXEC_ASSUME + MIR_ASSUME, EXEC_OUT + ['hundreds of systems as one concrete plan (covered through the commit induction)'], RULE_EXEC + ' | ' + MIR_RULE),
-    'C05': prop('model_checking', [exec_part()], EXEC_FUNCS, EXEC_BOUNDS, EXEC_ASSUME, EXEC_OUT + ['that non-conflicting steps commute on the real World under real interleavings (reduced claim: order agreement of dispatch_par and dispatch_seq on every ordered pair)'], RULE_EXEC),
+    'C03': prop('model_checking', [step_part(), exec_part(), unit_part(r'^unit_barrier_'), mir_part(['spec_add_barrier'])], STEP_FUNCS + ['StagesBuilder::add_barrier', 'DispatcherBuilder::add_barrier'], both(STEP_BOUNDS, EXEC_BOUNDS), STEP_ASSUME + EXEC_ASSUME + MIR_ASSUME, STEP_OUT + EXEC_OUT, RULE_STEP + ' | ' + RULE_EXEC + ' | ' + MIR_RULE),
+    'C04': prop('model_checking', [exec_part('C04'), commit_part('C04'), mir_part()], EXEC_FUNCS + ['MultiDispatcher::run', 'DispatcherBuilder::add_batch'], EXEC_BOUNDS, EXEC_ASSUME + MIR_ASSUME, EXEC_OUT + ['hundreds of systems as one concrete plan (covered through the commit induction)'], RULE_EXEC + ' | ' + MIR_RULE),
+    'C05': prop('model_checking', [exec_part(), mir_part(['spec_insert', 'spec_stage_exec'])], EXEC_FUNCS, EXEC_BOUNDS, EXEC_ASSUME, EXEC_OUT + ['that non-conflicting steps commute on the real World under real interleavings (reduced claim: order agreement of dispatch_par and dispatch_seq on every ordered pair)'], RULE_EXEC),
     'C06': PROPS_C06,
-    'C07': prop('other', [mir_part()], ['DispatcherBuilder::add_batch', 'BatchAccessor::{new,reads,writes}', 'BatchControllerSystem::{create,run,accessor,running_time}', 'BatchUncheckedWorld::{fetch,setup}'], {'loop unrolling': 3, 'nesting': 'any depth: a nested batch is an ordinary system of the inner builder'}, MIR_ASSUME + ['fetch_all_reads/fetch_all_writes return every id of every group (E1 unit harness, thorough)', 'sort/dedup preserve membership (std contract)'], ['interleavings of outer systems with the batch (C01 applies to the batch as one system)'], MIR_RULE, 'E2 symbolic execution of the batch glue'),
+    'C07': prop('other', [mir_part(), unit_part(r'^unit_fetchall_s1g2l1', r'^unit_fetchall_')], ['DispatcherBuilder::add_batch', 'BatchAccessor::{new,reads,writes}', 'BatchControllerSystem::{create,run,accessor,running_time}', 'BatchUncheckedWorld::{fetch,setup}'], {'loop unrolling': 3, 'nesting': 'any depth: a nested batch is an ordinary system of the inner builder'}, MIR_ASSUME + ['fetch_all_reads/fetch_all_writes return every id of every group (E1 unit harness, thorough)', 'sort/dedup preserve membership (std contract)'], ['interleavings of outer systems with the batch (C01 applies to the batch as one system)'], MIR_RULE, 'E2 symbolic execution of the batch glue'),
     'C10': prop('model_checking', [step_part(), exec_part()], STEP_FUNCS + ['SendDispatcher::max_threads', 'Stage::max_threads'], both(STEP_BOUNDS, EXEC_BOUNDS), STEP_ASSUME + EXEC_ASSUME, STEP_OUT, RULE_STEP + ' | ' + RULE_EXEC),
     'C11': prop('model_checking', [exec_part(), mir_part()], EXEC_FUNCS + ['DispatcherBuilder::{build,create_thread_pool,add_batch}'], EXEC_BOUNDS, EXEC_ASSUME + MIR_ASSUME, ['that real rayon with enough idle workers actually overlaps the jobs (liveness of rayon\'s scheduler)', 'async dispatcher'], RULE_EXEC + ' | ' + MIR_RULE),
     'C12': prop('model_checking', [exec_part(), mir_part()], EXEC_FUNCS + ['DispatcherBuilder::add_thread_local', 'AsyncDispatcher::wait'], EXEC_BOUNDS, EXEC_ASSUME + MIR_ASSUME, ['Dispatcher is !Send (a compile-time fact)', 'async dispatcher beyond the shape of wait()'], RULE_EXEC + ' | ' + MIR_RULE),
     'C13': prop('model_checking', [exec_part(), mir_part()], EXEC_FUNCS + ['DefaultProvider::setup', 'PanicHandler::setup'], EXEC_BOUNDS, EXEC_ASSUME + MIR_ASSUME, ['"no existing resource modified" on a populated World (hashbrown) beyond Entry::or_insert_with being the only mutation', 'async dispatcher setup'], RULE_EXEC + ' | ' + MIR_RULE),
     'C18': prop('model_checking', [step_part('C18'), mir_part()], STEP_FUNCS + ['DispatcherBuilder::{add,next_id,add_barrier,add_thread_local}'], STEP_BOUNDS, STEP_ASSUME + MIR_ASSUME, STEP_OUT + ['names needing sanitising (only the printer looks at them)'], RULE_STEP + ' | ' + MIR_RULE),
+    'C08': prop('other', [mir_part()], ['World::{try_fetch,try_fetch_mut,try_fetch_by_id,try_fetch_mut_by_id,fetch,fetch_mut}', 'Fetch::clone', 'Entry::or_insert_with', 'MetaIter::next', 'MetaIterMut::next'], {'loop unrolling': 3},
+                MIR_ASSUME + ['atomic_refcell implements shared-xor-exclusive and releases a borrow when its guard is dropped; borrow()/borrow_mut() panic on conflict (its documented contract)', 'std HashMap::get returns the cell stored under the key'],
+                ['the borrow state of a populated World over multi-step or multi-threaded histories (hashbrown cannot be executed symbolically here)', 'canary data races'], MIR_RULE, 'E2: every shared-reference access path of World, path by path'),
+    'C09': prop('other', [mir_part()], ['ResourceId::assert_same_type_id', 'World::{insert,insert_by_id,remove,remove_by_id,entry,has_value,has_value_raw,get_mut,exec}'], {},
+                MIR_ASSUME + ['std HashMap laws (insert replaces, remove returns, entry-or-insert never overwrites, slots are independent)'], ['multi-step histories on a populated World', 'exactly-once drop (ownership)'], MIR_RULE, 'E2: type check dominance and id provenance of every id-taking entry point'),
+    'C16': prop('other', [mir_part()], ['Seq::{run,setup,reads,writes,with,new}', 'Par::{run,setup,reads,writes,with,new} + run closures', 'leaf RunWithPool impl', 'ParSeq::{dispatch,setup}', 'Par::with in a debug-assertions build'], {'tree shapes': 'all (structural induction over head/tail)', 'loop unrolling': 3},
+                MIR_ASSUME + ['rayon::join / ThreadPool::join run both closures exactly once and return after both (contract)'], ['real overlap of par children', 'release builds do not check conflicts (cfg!(debug_assertions))'], MIR_RULE, 'E2: Par/Seq node bodies for all H, T'),
+    'C17': prop('other', [mir_part()], ['attach_vtable', 'MetaTable::{register,get,get_mut,iter,iter_mut} + closures', 'MetaIter::next', 'MetaIterMut::next'], {'loop unrolling': 3, 'feature': 'non-nightly'},
+                MIR_ASSUME + ['std HashMap::entry/len/get contracts', 'calling through the attached vtable is the compiler\'s business'], ['hashbrown', 'the nightly feature variant', 'machine-level vtable identity'], MIR_RULE, 'E2: meta table bodies'),
+    'C19': prop('model_checking', [relabel_part(), commit_part(), mir_part(['spec_insert', 'spec_add'])], STEP_FUNCS + COMMIT_FUNCS, both(RELABEL_BOUNDS, COMMIT_BOUNDS), STEP_ASSUME + MIR_ASSUME,
+                ['cross-process / cross-compiler comparison (TypeId order is only used by sort, shown not to influence decisions)', 'the `parallel` feature switch (placement code is cfg-free)'], RULE_STEP + ' | ' + MIR_RULE),
+    'C20': prop('other', [mir_part()], ['StagesBuilder::write_par_seq + closure', '<DispatcherBuilder as Debug>::fmt'], {'loop unrolling': 1}, MIR_ASSUME + ['ids table and executed list are in lock-step (C04 commit)'],
+                ['the text for arbitrary names (String/fmt machinery is not executed)', 'empty builders beyond the 0-iteration paths'], MIR_RULE, 'E2: plan printer structure and totality of the name lookup'),
 }
